@@ -4,7 +4,7 @@ V=${VERIF_DIR:-/verif}
 BASE=${BASE:-$(git -C /repo rev-parse HEAD)}   # pin the commit: /repo may move on while this runs
 cd $V
 ids=${@:-$(ls selftest/benign/*.diff | xargs -n1 basename | sed 's/.diff//')}
-checks=$(python3 -c "import json;print(' '.join(c['property_id'] for c in json.load(open('MANIFEST.json'))['checks']))")
+checks=${CHECKS:-$(python3 -c "import json;print(' '.join(c['property_id'] for c in json.load(open('MANIFEST.json'))['checks']))")}
 R=${RUNDIR:-/tmp/benrun}; mkdir -p $R
 for id in $ids; do
   W=$R/w_$id
